@@ -10,6 +10,7 @@
 #include <adm/write.hpp>
 #include <adm/common_definitions.hpp>
 #include <regex>
+#include <chrono>
 #include "perturb.hpp"
 
 namespace {
@@ -404,6 +405,137 @@ std::string do_frame(World& w, const std::vector<std::string>& t) {
   return "ok same timed=" + std::to_string(timed);
 }
 
+// ---- C07: arbitrary bytes ----
+template <typename E> bool listed(const std::shared_ptr<Document>& d, const std::shared_ptr<E>& e) {
+  for (auto const& x : d->template getElements<E>()) if (x == e) return true;
+  return false;
+}
+template <typename E> std::string ids_unique(const std::shared_ptr<Document>& d, const char* kind) {
+  std::map<std::string, int> seen;
+  for (auto const& e : d->template getElements<E>()) {
+    std::string id = formatId(e->template get<typename E::id_type>());
+    if (++seen[id] > 1) return std::string("two ") + kind + " elements carry " + id;
+    if (d->lookup(e->template get<typename E::id_type>()) != e) return std::string("lookup(") + id + ") does not return the element carrying it";
+  }
+  return "";
+}
+bool obj_cycle(const std::shared_ptr<AudioObject>& o, std::vector<const AudioObject*>& path, int depth) {
+  if (depth > 4000) return true;
+  for (auto p : path) if (p == o.get()) return true;
+  path.push_back(o.get());
+  for (auto const& c : o->getReferences<AudioObject>()) if (obj_cycle(c, path, depth + 1)) return true;
+  path.pop_back();
+  return false;
+}
+bool pack_cycle(const std::shared_ptr<AudioPackFormat>& o, std::vector<const AudioPackFormat*>& path, int depth) {
+  if (depth > 4000) return true;
+  for (auto p : path) if (p == o.get()) return true;
+  path.push_back(o.get());
+  for (auto const& c : o->getReferences<AudioPackFormat>()) if (pack_cycle(c, path, depth + 1)) return true;
+  path.pop_back();
+  return false;
+}
+// the invariants of C03 / C05 / C06 / C12 on a document returned by the parser, through the public API only
+std::string check_doc_invariants(const std::shared_ptr<Document>& d) {
+  std::string m;
+  if (!(m = ids_unique<AudioProgramme>(d, "audioProgramme")).empty()) return m;
+  if (!(m = ids_unique<AudioContent>(d, "audioContent")).empty()) return m;
+  if (!(m = ids_unique<AudioObject>(d, "audioObject")).empty()) return m;
+  if (!(m = ids_unique<AudioPackFormat>(d, "audioPackFormat")).empty()) return m;
+  if (!(m = ids_unique<AudioChannelFormat>(d, "audioChannelFormat")).empty()) return m;
+  if (!(m = ids_unique<AudioStreamFormat>(d, "audioStreamFormat")).empty()) return m;
+  if (!(m = ids_unique<AudioTrackFormat>(d, "audioTrackFormat")).empty()) return m;
+  for (auto const& e : d->getElements<AudioProgramme>())
+    for (auto const& r : e->getReferences<AudioContent>()) if (!listed(d, r)) return "a referenced audioContent is not in the document";
+  for (auto const& e : d->getElements<AudioContent>())
+    for (auto const& r : e->getReferences<AudioObject>()) if (!listed(d, r)) return "a referenced audioObject is not in the document";
+  for (auto const& e : d->getElements<AudioObject>()) {
+    for (auto const& r : e->getReferences<AudioObject>()) if (!listed(d, r)) return "a nested audioObject is not in the document";
+    for (auto const& r : e->getComplementaryObjects()) if (!listed(d, r)) return "a complementary audioObject is not in the document";
+    for (auto const& r : e->getReferences<AudioPackFormat>()) if (!listed(d, r)) return "a referenced audioPackFormat is not in the document";
+    for (auto const& r : e->getReferences<AudioTrackUid>()) if (!r->isSilent() && !listed(d, r)) return "a referenced audioTrackUID is not in the document";
+    std::vector<const AudioObject*> path;
+    if (obj_cycle(e, path, 0)) return "audioObject reference cycle through " + formatId(e->get<AudioObjectId>());
+  }
+  for (auto const& e : d->getElements<AudioPackFormat>()) {
+    for (auto const& r : e->getReferences<AudioChannelFormat>()) if (!listed(d, r)) return "a referenced audioChannelFormat is not in the document";
+    for (auto const& r : e->getReferences<AudioPackFormat>()) if (!listed(d, r)) return "a nested audioPackFormat is not in the document";
+    std::vector<const AudioPackFormat*> path;
+    if (pack_cycle(e, path, 0)) return "audioPackFormat reference cycle through " + formatId(e->get<AudioPackFormatId>());
+  }
+  for (auto const& e : d->getElements<AudioStreamFormat>()) {
+    if (auto r = e->getReference<AudioChannelFormat>()) if (!listed(d, r)) return "a stream's audioChannelFormat is not in the document";
+    if (auto r = e->getReference<AudioPackFormat>()) if (!listed(d, r)) return "a stream's audioPackFormat is not in the document";
+    for (auto const& wk : e->getAudioTrackFormatReferences()) {
+      auto tf = wk.lock();
+      if (!tf) return "expired audioTrackFormat reference";
+      if (!listed(d, tf)) return "a stream's audioTrackFormat is not in the document";
+      if (tf->getReference<AudioStreamFormat>() != e) return "stream -> track reference without the back reference";
+    }
+  }
+  for (auto const& e : d->getElements<AudioTrackFormat>()) {
+    if (auto sf = e->getReference<AudioStreamFormat>()) {
+      if (!listed(d, sf)) return "a track's audioStreamFormat is not in the document";
+      bool found = false;
+      for (auto const& wk : sf->getAudioTrackFormatReferences()) if (wk.lock() == e) found = true;
+      if (!found) return "track -> stream reference without the stream listing the track";
+    }
+  }
+  for (auto const& e : d->getElements<AudioTrackUid>()) {
+    if (auto r = e->getReference<AudioTrackFormat>()) if (!listed(d, r)) return "a UID's audioTrackFormat is not in the document";
+    if (auto r = e->getReference<AudioChannelFormat>()) if (!listed(d, r)) return "a UID's audioChannelFormat is not in the document";
+    if (auto r = e->getReference<AudioPackFormat>()) if (!listed(d, r)) return "a UID's audioPackFormat is not in the document";
+  }
+  return "";
+}
+
+template <typename F> char outcome(F f, std::string& note) {
+  try {
+    std::shared_ptr<Document> d = f();
+    std::string m = d ? check_doc_invariants(d) : std::string("null document");
+    if (!m.empty()) { note = m; return 'I'; }
+    return 'R';
+  } catch (const std::exception&) {
+    return 'T';
+  } catch (...) {
+    note = "an exception not derived from std::exception";
+    return 'X';
+  }
+}
+// fuzz <hex>: every entry point and option on arbitrary bytes; one letter per call: R returned, T threw (std::exception),
+// X threw something else, I returned a document that breaks an invariant
+std::string do_fuzz(const std::vector<std::string>& t) {
+  std::string bytes = t.size() > 1 ? from_hex(t[1]) : std::string();
+  std::string res, note;
+  auto t0 = std::chrono::steady_clock::now();
+  for (auto po : {xml::ParserOptions::none, xml::ParserOptions::recursive_node_search, xml::ParserOptions::permit_time_reference_mismatch,
+                  xml::ParserOptions::recursive_node_search | xml::ParserOptions::permit_time_reference_mismatch})
+    res += outcome([&] { std::istringstream in(bytes); return parseXml(in, po); }, note);
+  boost::optional<FrameHeader> parsed;
+  try {
+    std::istringstream in(bytes);
+    parsed = parseFrameHeader(in);
+    res += 'R';
+  } catch (const std::exception&) {
+    res += 'T';
+  } catch (...) {
+    res += 'X';
+    note = "parseFrameHeader: an exception not derived from std::exception";
+  }
+  std::vector<FrameHeader> headers;
+  if (parsed) headers.push_back(*parsed);
+  for (auto tr : {TimeReference::TOTAL, TimeReference::LOCAL}) {
+    FrameFormat ff(FrameFormatId(FrameIndex(1)), Start(std::chrono::nanoseconds(0)), Duration(std::chrono::nanoseconds(1000000000)), FrameType::FULL);
+    ff.set(tr);
+    headers.push_back(FrameHeader(ff));
+  }
+  for (auto const& h : headers)
+    for (auto po : {xml::ParserOptions::none, xml::ParserOptions::permit_time_reference_mismatch, xml::ParserOptions::recursive_node_search})
+      res += outcome([&] { std::istringstream in(bytes); return parseXml(in, h, po); }, note);
+  auto ms = std::chrono::duration_cast<std::chrono::milliseconds>(std::chrono::steady_clock::now() - t0).count();
+  return "ok " + res + " ms=" + std::to_string(ms) + (note.empty() ? "" : " NOTE " + sanitize(note));
+}
+
 // bindcd h d kind ty val ctr: gives the script name h to an element already in document d (common definitions)
 std::string do_bindcd(World& w, const std::vector<std::string>& t) {
   auto doc = w.doc(t.at(2));
@@ -424,6 +556,7 @@ std::string do_bindcd(World& w, const std::vector<std::string>& t) {
 
 bool run_xml_op(World& w, const std::vector<std::string>& t, std::string& r) {
   const std::string& c = t[0];
+  if (c == "fuzz") { r = do_fuzz(t); return true; }
   if (c == "frame") { r = do_frame(w, t); return true; }
   if (c == "pw") { r = do_pw(t); return true; }
   if (c == "perturb") { perturb_set(static_cast<unsigned>(std::stoul(t.at(1)))); r = perturb_available() ? "ok" : "ok unavailable"; return true; }
